@@ -7,11 +7,11 @@ CORPUS_EVERY = 8  # every 8th case is a library / fixture model under perturbati
 SIZES = {"quick": 640, "thorough": 24000}
 
 
-def make_case_for(prop_number, profile=None):
+def make_case_for(prop_number, profile=None, prefer=()):
     def make_case(tier, seed, index):
         rng = gen.rng_for(seed, prop_number, index)
         if index % CORPUS_EVERY == CORPUS_EVERY - 1:
-            return corpus.make_case(rng, max_steps=40 if tier == "quick" else 80)
+            return corpus.make_case(rng, max_steps=40 if tier == "quick" else 80, prefer=prefer)
         pf = dict(profile or {})
         if tier == "thorough":
             pf.setdefault("steps", (3, 60))
